@@ -82,6 +82,17 @@ def gen_case(rng, tier, idx):
                          [3, {"a": "limit", "side": "any", "off": [-3, 3], "vol": [1, 3], "ttl": [None, 3]}],
                          [1, {"a": "cancel", "which": "any"}], [1, {"a": "market", "side": "any", "vol": [1, 2], "ttl": [2]}]]}}
     cfg["simulation"]["agents"] = ["FCNFixed", "FCNNormal", "FCNIndex", "Share", "Maker", "Arb", "Tester", "Script"]
+    # randomised endowments: every draw a component makes during setup must come from its own generator, in a
+    # configuration-determined order (several market groups per agent type make the order matter)
+    for g in ("FCNBase", "Arb", "Tester", "Script", "Maker"):
+        if rng.random() < 0.7:
+            cfg[g]["assetVolume"] = rng.choice([[10, 100], {"uniform": [20, 80]}, {"expon": [40]}])
+        if rng.random() < 0.5:
+            cfg[g]["cashAmount"] = rng.choice([[5000, 50000], {"normal": [20000, 100]}])
+    if rng.random() < 0.5:
+        cfg["Script"]["markets"] = ["Index", "Spot"]
+    if rng.random() < 0.5:
+        cfg["Share"]["markets"] = ["Spot", "Index"]
     all_events = rng.random() < 0.7
     cfg["EvShock"] = {"class": "FundamentalPriceShock", "target": names[0], "triggerTime": rng.randint(0, 10),
                       "priceChangeRate": rng.choice([-0.1, 0.05]), "shockTimeLength": rng.choice([1, 2])}
